@@ -32,6 +32,9 @@ def private_tmp():
 
 
 def main():
+    import time
+    os.environ['TZ'] = 'VRF-05:45'      # a zone 5 h 45 min east of UTC, for this process and every interpreter it starts
+    time.tzset()
     tmproot = private_tmp()
     ap = argparse.ArgumentParser()
     ap.add_argument('prop')
